@@ -553,6 +553,7 @@ def run(ctx: Ctx) -> None:
 
 
 MUTANTS = [
+    ("iteration-writes-input", SETUP, "        obj_params[params_obj_type] = params_obj_name\n", "        params[params_obj_type] = params_obj_name\n        obj_params[params_obj_type] = params_obj_name\n", "11w"),
     ("show-lists-skipped-types", SETUP, "    states = []\n    for state_params in _parametric_object_iteration(run_params):\n        params_obj_name = state_params[\"object_name\"]\n        params_obj_type = state_params[\"object_type\"]\n        if params_obj_type in state_params.objects(\"skip_types\"):", "    states = []\n    for state_params in _parametric_object_iteration(run_params):\n        params_obj_name = state_params[\"object_name\"]\n        params_obj_type = state_params[\"object_type\"]\n        if params_obj_type not in state_params.objects(\"skip_types\"):", "13"),
     ("push-touches-readonly-image", SETUP, "        if params_obj_type == \"nets/vms/images\" and state_params.get_boolean(\n            \"image_readonly\", False\n        ):\n            logging.warning(\n                f\"Incorrect configuration: cannot use any state \"\n                f\"from readonly image {params_obj_name} - skipping\"\n            )\n            continue\n\n        if not state_params.get(\"push_state\"):",
      "        if not state_params.get(\"push_state\"):", "5u"),
